@@ -156,16 +156,18 @@ def script_case(idx, payload):
         if names:
             multi = [x for x in names if ", " in x]
             ignore = rng.sample(names, rng.randint(1, min(2, len(names)))) + (rng.sample(multi, 1) if multi else [])
+    # the stem of the interface file names the submodule: stems that end in (or consist of) the letters of the `.i` extension
+    stem = rng.choice(["part", "part", "omni", "wifi", "mini", "i", "ii", "nav_i"])
     d = tempfile.mkdtemp(prefix="verif_c16_")
-    res = dict(idx=idx, text=text, script=which, opts=dict(top=spelling, boost=boost, sub=sub, ignore=ignore), bad=None)
+    res = dict(idx=idx, text=text, script=which, opts=dict(stem=stem, top=spelling, boost=boost, sub=sub, ignore=ignore), bad=None)
     try:
-        src = os.path.join(d, "part.i")
+        src = os.path.join(d, stem + ".i")
         open(src, "w", encoding="utf-8").write(text)
         tplp = os.path.join(d, "t.tpl")
         open(tplp, "w").write(streams.TPL_MIN)
         api_top = [''] + topp
         if which == "pybind":
-            cmd = [sys.executable, os.path.join(REPO, "scripts", "pybind_wrap.py"), "--src", "part.i", "--module_name", "modx",
+            cmd = [sys.executable, os.path.join(REPO, "scripts", "pybind_wrap.py"), "--src", stem + ".i", "--module_name", "modx",
                    "--out", "out.cpp", "--template", "t.tpl", "--top_module_namespaces", spelling]
             if boost:
                 cmd.append("--use-boost-serialization")
@@ -174,8 +176,8 @@ def script_case(idx, payload):
             if ignore is not None:
                 cmd += ["--ignore"] + ignore
             r = subprocess.run(cmd, cwd=d, capture_output=True, text=True, timeout=120, env=dict(os.environ, PYTHONPATH=REPO))
-            api = impl_pybind(text, streams.TPL_MIN, "part" if sub else "modx", api_top, boost, ignore or [], None if sub else [])
-            outp = os.path.join(d, "part.cpp" if sub else "out.cpp")
+            api = impl_pybind(text, streams.TPL_MIN, stem if sub else "modx", api_top, boost, ignore or [], None if sub else [])
+            outp = os.path.join(d, stem + ".cpp" if sub else "out.cpp")
             got = open(outp, encoding="utf-8").read() if os.path.exists(outp) else None
             if api[0] == "ok":
                 if r.returncode != 0 or got != api[1]:
@@ -185,7 +187,7 @@ def script_case(idx, payload):
             elif r.returncode == 0:
                 res["bad"] = dict(kind="spec", what="script succeeds where the API fails", input=text, options=res["opts"])
         else:
-            cmd = [sys.executable, os.path.join(REPO, "scripts", "matlab_wrap.py"), "--src", "part.i", "--module_name", "modx",
+            cmd = [sys.executable, os.path.join(REPO, "scripts", "matlab_wrap.py"), "--src", stem + ".i", "--module_name", "modx",
                    "--out", "tb", "--top_module_namespaces", spelling]
             if boost:
                 cmd.append("--use-boost-serialization")
@@ -209,15 +211,123 @@ def script_case(idx, payload):
     return res
 
 
+def driver_case(idx, payload):
+    """a build driver using the library API the way the script does, with ONE list of sources: `wrap(sources, out)` for the
+    main module, then `wrap_submodule(s)` for every further file — repeated for a second target.  Every initialiser the main
+    unit declares must be defined by exactly one generated part; the caller's list is the caller's; a second, identical
+    run yields identical files"""
+    from gtwrap.pybind_wrapper import PybindWrapper
+    seed, _ = payload
+    rng = random.Random(seed * 1000003 + idx + 808080)
+    nsub = rng.randint(1, 3)
+    stems = rng.sample(["base", "geometry", "nav", "slam", "linear"], nsub)
+    texts = [gen_text(rng, dict(extra_kinds=['cls', 'cls']))[1] for _ in range(nsub + 1)]
+    res = dict(idx=idx, text=texts[0], nsub=nsub, bad=None)
+    d = tempfile.mkdtemp(prefix="verif_c16d_")
+    cwd = os.getcwd()
+    try:
+        paths = [os.path.join(d, "robot.i")] + [os.path.join(d, st + ".i") for st in stems]
+        for pth, t in zip(paths, texts):
+            open(pth, "w", encoding="utf-8").write(t)
+        sources = list(paths)
+        runs = []
+        for k in range(2):
+            od = os.path.join(d, "out%d" % k)
+            os.makedirs(od)
+            os.chdir(od)
+            try:
+                w = PybindWrapper(module_name="robot", top_module_namespaces=[''], use_boost_serialization=False, ignore_classes=[],
+                                  module_template=streams.TPL_MIN)
+                w.wrap(sources, "robot.cpp")
+                for sp in sources[1:]:
+                    w.wrap_submodule(sp)
+            except Exception as e:  # noqa
+                res["err"] = classify_exc(e)
+                if k == 1:
+                    res["bad"] = dict(kind="spec", what="the second, identical run of the build driver fails (%s) where the first one succeeded" % res["err"],
+                                      input=texts[0], sources=[os.path.basename(x) for x in paths])
+                return res
+            finally:
+                os.chdir(cwd)
+            runs.append({fn: open(os.path.join(od, fn), encoding="utf-8").read() for fn in sorted(os.listdir(od))})
+        if sources != paths:
+            res["bad"] = dict(kind="spec", what="wrap() changed the caller's list of sources", input=texts[0],
+                              before=[os.path.basename(x) for x in paths], after=[os.path.basename(x) for x in sources])
+            return res
+        if runs[0] != runs[1]:
+            res["bad"] = dict(kind="spec", what="two identical runs of the build driver produce different files", input=texts[0],
+                              first=sorted(runs[0]), second=sorted(runs[1]))
+            return res
+        main = runs[0].get("robot.cpp", "")
+        for st in stems:
+            part = runs[0].get(st + ".cpp")
+            if "void %s(py::module_ &);" % st not in main or "%s(m_);" % st not in main or part is None or \
+                    "void %s(py::module_ &m_)" % st not in part:
+                res["bad"] = dict(kind="spec", what="initialiser `%s` is not declared+called by the main unit and defined by exactly one part" % st,
+                                  input=texts[0], files=sorted(runs[0]))
+                return res
+    finally:
+        os.chdir(cwd)
+        shutil.rmtree(d, ignore_errors=True)
+    return res
+
+
+def matlab_script_case(idx, payload):
+    """scripts/matlab_wrap.py with SEVERAL files, in the order given (main first — not sorted): same toolbox as the API for
+    that list, with and without options"""
+    from common import REPO
+    seed, _ = payload
+    rng = random.Random(seed * 1000003 + idx + 909090)
+    names = rng.sample(["robot.i", "base.i", "nav.i", "alpha.i", "zeta.i", "main_module.i"], rng.randint(2, 3))
+    if names == sorted(names):
+        names.reverse()
+    texts = []
+    for k, nm in enumerate(names):
+        m, t = gen_text(rng, dict(max_decls=3, ns_pool=[["r1"], ["r2"], ["r3"]][k], class_pool=[["Ca", "Cb"], ["Cc", "Cd"], ["Ce", "Cf"]][k],
+                                  mnames=["f%d" % k, "g%d" % k], allow_typedef=False, p_template=0.0, extra_kinds=['cls', 'cls', 'ns']), serializable=0.3)
+        texts.append(t.rstrip() + "\n")
+    boost = rng.random() < 0.5
+    res = dict(idx=idx, text="\x1e".join(texts), script="matlab-multi", opts=dict(files=names, boost=boost), bad=None)
+    d = tempfile.mkdtemp(prefix="verif_c16m_")
+    try:
+        for nm, t in zip(names, texts):
+            open(os.path.join(d, nm), "w", encoding="utf-8").write(t)
+        cmd = [sys.executable, os.path.join(REPO, "scripts", "matlab_wrap.py"), "--src", ";".join(names), "--module_name", "modx", "--out", "tb"]
+        if boost:
+            cmd.append("--use-boost-serialization")
+        r = subprocess.run(cmd, cwd=d, capture_output=True, text=True, timeout=120, env=dict(os.environ, PYTHONPATH=REPO))
+        api = impl_matlab(texts, "modx", [], boost)
+        got = {}
+        for root, _, fs in os.walk(os.path.join(d, "tb")):
+            for fn in fs:
+                pth = os.path.join(root, fn)
+                got[os.path.relpath(pth, os.path.join(d, "tb"))] = open(pth, encoding="utf-8", newline="").read()
+        res["api_ok"] = api[0] == "ok"
+        if api[0] == "ok":
+            if r.returncode != 0 or got != api[1]:
+                from props._matlab_common import files_diff
+                dd = files_diff(api[1], got) if r.returncode == 0 else dict(stderr=r.stderr[-300:])
+                res["bad"] = dict(kind="spec", what="scripts/matlab_wrap.py with several files does not produce what the API produces for the same list (in the order given)",
+                                  files=names, texts=texts, **dd)
+        elif r.returncode == 0:
+            res["bad"] = dict(kind="spec", what="script succeeds where the API fails", files=names, texts=texts)
+    finally:
+        shutil.rmtree(d, ignore_errors=True)
+    return res
+
+
 def run(ctx, scale, off=0, collect=True):
     first = None
-    for fn, n, tag in ((compose_case, scale[0], "compose"), (matlab_case, scale[1], "matlab_concat"), (script_case, scale[2], "script")):
+    for fn, n, tag in ((compose_case, scale[0], "compose"), (matlab_case, scale[1], "matlab_concat"), (script_case, scale[2], "script"),
+                       (driver_case, max(10, scale[0] // 4), "api_driver"), (matlab_script_case, max(8, scale[2] // 5), "matlab_script_multi")):
         for r in fw.run_cases(fn, [(ctx.seed + off, None)] * n):
             if "crash" in r:
                 raise RuntimeError(r["crash"])
             if collect:
                 ctx.case(tag + r["text"], sample=dict(stream=tag, text=r["text"][:300], **{k: r[k] for k in ("nsub", "boost", "opts", "script", "n") if k in r}))
                 ctx.count("stream_" + tag)
+                if "api_ok" in r:
+                    ctx.count(tag + ("_compared" if r["api_ok"] else "_api_rejects"))
                 if "nsub" in r:
                     ctx.count("additional_files_%d" % r["nsub"])
             b = r["bad"]
